@@ -22,9 +22,9 @@ ID = "C17"
 LEVEL = "exploration"
 EXHAUSTIVE = True
 EXHAUSTIVE_STREAMS = {'all': 'every path of <= N segments x route x root setting (complete)'}
-RULE = ("every path built from <=N segments (N=4 quick, 5 thorough) over {.., ., child, nested, sibling-with-common-prefix, outside, "
+RULE = ("every path built from <=N segments (N=4 quick, 5 thorough; plus <= 2 segments behind the home spellings ~, ~/., ./~, ~root, $HOME, %7E with HOME outside the roots) over {.., ., child, nested, sibling-with-common-prefix, outside, "
         "file-as-directory, empty} + optional final file name, anchored at {root (absolute), tree base (absolute), cwd-relative}, x "
-        "route {GET static, POST /script f, /directory f, /directory d, /lineage f} x root setting {absolute, relative}; "
+        "route {GET static, POST /script f, /directory f, /directory d, /lineage f} x root setting {absolute, relative, '.' with the process inside it}; "
         "enumerated exhaustively. Non-trivial = path contains '..' or a sibling/outside component or is anchored outside the root; "
         "distinct = distinct (route, root setting, path) - distinct by construction of the enumeration.")
 ASSUMPTIONS = [
@@ -85,8 +85,16 @@ class Client:
         self.root_abs = os.path.join(base, "root")
         self.static_abs = os.path.join(base, "static")
         d.STATIC_FOLDER = self.static_abs
-        os.chdir(base)
-        d.app.root_path = Path(self.root_abs) if root_setting == "abs" else Path("root")
+        os.environ["HOME"] = os.path.join(base, "outside")  # '~' names a directory outside every root
+        if root_setting == "dot":
+            # the root is '.', the process sits in it (what `SQLLINEAGE_DIRECTORY=.` or `sqllineage -g -f query.sql` give)
+            os.chdir(self.root_abs)
+            d.app.root_path = Path(".")
+        else:
+            os.chdir(base)
+            d.app.root_path = Path(self.root_abs) if root_setting == "abs" else Path("root")
+        # the configured SQL directory IS the root (a request that names no path lists the configured directory, by design)
+        os.environ["SQLLINEAGE_DIRECTORY"] = str(d.app.root_path)
 
     def request(self, method, path, body=None):
         st = {}
@@ -134,7 +142,7 @@ def judge(client, markers, route, path):
         try:
             data = json.loads(text)
             listed = data.get("id")
-            if listed is not None and not inside(os.path.join(client.base, listed) if not os.path.isabs(listed) else listed, root):
+            if listed is not None and not inside(os.path.abspath(listed), root):  # a relative id is relative to the server's working directory
                 leaks.append({"listed_directory": os.path.relpath(os.path.realpath(listed), client.base),
                               "entries": [c.get("name") for c in data.get("children", [])][:6]})
         except ValueError:
@@ -163,6 +171,13 @@ def post_paths(nseg, base):
                     yield "rel0", rel
     yield "abs", "/etc/hostname"
     yield "abs", "/"
+    # spellings that a shell-like expansion would take out of the root ('~' is an ordinary directory name for the path check)
+    for head in ("~", "~/.", "./~", "~root", "~/..", "$HOME", "${HOME}", "%7E"):
+        for n in range(0, 3):
+            for segs in itertools.product(SEGS, repeat=n):
+                for fin in FINALS:
+                    parts = [head] + list(segs) + ([fin] if fin else [])
+                    yield "home", "/".join(parts)
 
 
 def get_paths(nseg):
@@ -214,7 +229,7 @@ def _worker(payload):
                 break
             for route in ROUTES:
                 res.evals += 1
-                isnt = nontrivial(path) or anchor in ("base", "abs", "rel0")
+                isnt = nontrivial(path) or anchor in ("base", "abs", "rel0", "home")
                 nt += isnt
                 d = judge(client, markers, route, path)
                 if isnt and (nt in (1, 50) or nt % 20011 == 0):
@@ -273,7 +288,7 @@ def _dedup(violations):
 def run(ctx):
     nseg = 4 if ctx.quick else 5
     n = runner.NCPU
-    payloads = [(i, n, nseg, rs, ctx) for rs in ("abs", "rel") for i in range(n)]
+    payloads = [(i, n, nseg, rs, ctx) for rs in ("abs", "rel", "dot") for i in range(n)]
     res = runner.merge_all(runner.pmap(_worker, payloads))
     res.violations = _dedup(res.violations)
     res.extra["max_segments"] = nseg
